@@ -3,7 +3,8 @@
    Model: Schema/SdlBuild.v (build_model).  Spec: Spec/SdlSpec.v (declared,
    sdl_rules_ok).  Proofs: Proofs/SdlProofs.v.  Statements only. *)
 From Coq Require Import Sorting.Permutation.
-From PyGql Require Import Run.Driver Schema.SdlBuild Spec.SdlSpec Proofs.SdlProofs Proofs.SdlWitnesses.
+From PyGql Require Import Run.Driver Schema.SdlBuild Spec.SdlSpec Proofs.SdlProofs Proofs.SdlWitnesses
+     Proofs.SdlExactProofs Proofs.SdlOrderProofs.
 
 (* ---- full-strength statements (kept visible) -------------------------- *)
 
@@ -43,6 +44,58 @@ Proof. exists doc_self_cycle_default; split; vm_compute; reflexivity. Qed.
 Print Assumptions C11_exact_refuted_divergence.
 
 (* ---- proved ----------------------------------------------------------- *)
+
+(* C11_exact for every document outside the two findings.  The guard
+   [defaults_stable] (Spec/SdlSpec.v) is exactly their complement: every
+   default value coerces at build time -- eagerly, against the types as they
+   are before extensions are applied -- to what coercion at its declared type
+   gives.  The builder then returns the declared schema itself (same types in
+   the same order), which is in particular schema_equiv to it. *)
+Theorem C11_exact_partial : forall doc,
+  sdl_rules_ok doc -> defaults_stable doc ->
+  exists sc, build_model (BOpts false []) doc = Ok sc /\ schema_equiv sc (declared doc) = true.
+Proof. exact exact_equiv. Qed.
+Print Assumptions C11_exact_partial.
+
+Theorem C11_exact_build : forall doc,
+  sdl_rules_ok doc -> defaults_stable doc -> build_model (BOpts false []) doc = Ok (declared doc).
+Proof. exact exact_build_rules. Qed.
+Print Assumptions C11_exact_build.
+
+(* C11_order for arbitrary permutations.  The declared schema does not depend
+   on the order of the definitions: any permutation that keeps, for every
+   target, the sequence of its extensions (and the sequence of schema
+   extensions) declares an equivalent schema ... *)
+Theorem C11_order_declared : forall doc doc',
+  Permutation (doc_defs doc) (doc_defs doc') ->
+  (forall n, exts_for n (doc_defs doc) = exts_for n (doc_defs doc')) ->
+  schema_exts (doc_defs doc) = schema_exts (doc_defs doc') ->
+  r_unique_types doc = true -> r_unique_directives doc = true -> r_one_schema doc = true ->
+  schema_equiv (declared doc) (declared doc') = true.
+Proof. exact declared_order. Qed.
+Print Assumptions C11_order_declared.
+
+(* ... and so does what the builder returns, when both documents satisfy the
+   rules and are outside the findings (that the rules and the guard are
+   themselves invariant under such permutations is not proved) *)
+Theorem C11_order_build : forall doc doc',
+  Permutation (doc_defs doc) (doc_defs doc') ->
+  (forall n, exts_for n (doc_defs doc) = exts_for n (doc_defs doc')) ->
+  schema_exts (doc_defs doc) = schema_exts (doc_defs doc') ->
+  sdl_rules_ok doc -> defaults_stable doc -> sdl_rules_ok doc' -> defaults_stable doc' ->
+  exists sc sc', build_model (BOpts false []) doc = Ok sc /\ build_model (BOpts false []) doc' = Ok sc'
+                 /\ schema_equiv sc sc' = true.
+Proof. exact order_build. Qed.
+Print Assumptions C11_order_build.
+
+(* C11_reject for the rules _collect_definitions enforces: a duplicate type
+   name, a duplicate directive name or a second schema definition is rejected
+   with SDLError, whatever else the document contains and whatever the flags *)
+Theorem C11_reject_duplicates : forall o doc,
+  r_unique_types doc = false \/ r_unique_directives doc = false \/ r_one_schema doc = false ->
+  build_model o doc = Rejected K_SDL 0.
+Proof. exact reject_duplicates. Qed.
+Print Assumptions C11_reject_duplicates.
 
 (* whatever the document, flags and supplied types, the builder never fails
    with an unrelated exception: it answers, runs out of fuel (the divergence
@@ -124,6 +177,17 @@ Example C11_exact_instance :
   | _ => False
   end.
 Proof. split; vm_compute; reflexivity. Qed.
+
+(* the guard and the rules hold together on a document with recursive input
+   types, extensions of four kinds, defaults and a deprecation *)
+Example C11_exact_hypotheses_instance : sdl_rules_ok doc_nonvacuous /\ defaults_stable doc_nonvacuous.
+Proof.
+  split; [vm_compute; reflexivity|].
+  split; intros iv Hin; cbv in Hin;
+    repeat (destruct Hin as [<-|Hin]; [intros v Hv; cbv in Hv; try discriminate;
+                                        inversion Hv; subst v; vm_compute; reflexivity|]);
+    contradiction.
+Qed.
 
 Example C11_reject_instance :
   ~ sdl_rules_ok doc_not_ok /\ build_model (BOpts false []) doc_not_ok = Rejected K_SDL 0.
